@@ -6,7 +6,7 @@
    may share an inode and nothing may crash.  The theorems below establish that the reference tree
    itself behaves as a directory tree should; proofs are in Proofs/MutFsProofs.v. *)
 From Coq Require Import List String NArith Bool Arith.
-From DM Require Import Model.Mount Model.MutFs Proofs.MutFsProofs Proofs.MutFsWf.
+From DM Require Import Model.Mount Model.MutFs Model.Inode Model.InodeCheck Proofs.MutFsProofs Proofs.MutFsWf Proofs.InodeProofs.
 Import ListNotations.
 Open Scope string_scope.
 Open Scope list_scope.
@@ -67,3 +67,35 @@ Example C18_example :
   snd (step (run ops []) (FRmdir ["b"])) = RErr ENOTEMPTY /\
   snd (step (run ops []) (FLookup ["a"; "f"])) = RErr ENOENT.
 Proof. vm_compute. repeat split. Qed.
+
+(* ---- inode numbers (pkg/fuse/inode.go) ---- *)
+(* a number handed out is above the base, in use by no live entry, and the bookkeeping stays exact:
+   numbers above the base are live or on the free stack, each once *)
+Theorem C18_inode_fresh : forall base g live, iinv base g live ->
+  ~ In (fst (ialloc g)) live /\ (base < fst (ialloc g))%N /\ iinv base (snd (ialloc g)) (live ++ [fst (ialloc g)]).
+Proof. exact ialloc_fresh. Qed.
+Print Assumptions C18_inode_fresh.
+
+Theorem C18_inode_release : forall base g live k i, iinv base g live -> nth_error live k = Some i ->
+  iinv base (irelease i g) (remove_nth k live).
+Proof. exact irelease_inv. Qed.
+Print Assumptions C18_inode_release.
+
+(* after any history of allocations and releases of live numbers, no two live entries share a number *)
+Theorem C18_inodes_never_shared : forall base ops,
+  let st := ifinal ({| ig_hi := base; ig_free := [] |}, []) ops in
+  NoDup (snd st) /\ forall x, In x (snd st) -> (base < x)%N.
+Proof. exact live_never_shared. Qed.
+Print Assumptions C18_inodes_never_shared.
+
+(* the executable reading of this clause, which the check applies to the implementation's answers,
+   holds of the model's answers for every history *)
+Theorem C18_inode_spec : forall base ops,
+  ispec base [] ops (irun ({| ig_hi := base; ig_free := [] |}, []) ops) = true.
+Proof. exact irun_meets_spec_init. Qed.
+Print Assumptions C18_inode_spec.
+
+Example C18_inode_example :
+  irun ({| ig_hi := 1023; ig_free := [] |}, []) [IAlloc; IAlloc; IAlloc; IFree 1; IFree 1; IAlloc; IAlloc; IAlloc]
+  = [Some 1024; Some 1025; Some 1026; Some 1025; Some 1026; Some 1025; Some 1026; Some 1027]%N.
+Proof. vm_compute. reflexivity. Qed.
